@@ -88,6 +88,28 @@ func (x *Exec) walkWithInvariant(c *CallCtx, d collDesc, h int, fn *ssa.Function
 		if isPair {
 			comp, cs = app("snd", key), k2Sort
 		}
+		if isPair && rng.KeyBounds {
+			// whole-key bounds on a pair key: lexicographic comparison
+			lexLT := func(a, b string) string {
+				fa, fb := app("fst", a), app("fst", b)
+				return or(cmpLT(fa, fb, k1Sort), and(eq(fa, fb), cmpLT(app("snd", a), app("snd", b), k2Sort)))
+			}
+			if rng.Lo != "" {
+				if rng.LoIncl {
+					conj = append(conj, not(lexLT(key, rng.Lo)))
+				} else {
+					conj = append(conj, lexLT(rng.Lo, key))
+				}
+			}
+			if rng.Hi != "" {
+				if rng.HiIncl {
+					conj = append(conj, not(lexLT(rng.Hi, key)))
+				} else {
+					conj = append(conj, lexLT(key, rng.Hi))
+				}
+			}
+			return and(conj...)
+		}
 		if rng.Lo != "" {
 			if rng.LoIncl {
 				conj = append(conj, not(cmpLT(comp, rng.Lo, cs)))
